@@ -260,19 +260,19 @@ def spied_step(ctx, env, state, action, label, payload_fn):
     ns, r, d = res
     ctx.hit('gridworld.spied_steps')
     for name, spy, value in (('reward', rs, r), ('termination', ts, d)):
-        if len(spy.calls) != 1:
-            ctx.violation('gridworld', f'gridworld.{name}_calls', f'{label}: {name} function evaluated {len(spy.calls)} times in one step',
-                          'env_step', payload_fn())
-            continue
-        args, kwargs, ret = spy.calls[0]
-        if len(args) < 3 or args[0] is not state or args[1] is not action or args[2] is not ns:
-            what = []
-            if len(args) >= 3:
-                what = ['state' if args[0] is state else 'next_state' if args[0] is ns else 'other',
-                        'action' if args[1] is action else 'other',
-                        'next_state' if args[2] is ns else 'state' if args[2] is state else 'other']
-            ctx.violation('gridworld', f'gridworld.{name}_arguments',
-                          f'{label}: {name} function received {what} instead of (state, action, next_state)', 'env_step', payload_fn())
+        if not spy.calls:
+            continue  # how often (or whether) the component is evaluated is not part of the statement; values are checked below
+        args, kwargs, ret = spy.calls[-1]
+        for (cargs, _, _) in spy.calls:
+            if len(cargs) < 3 or cargs[0] is not state or cargs[1] is not action or cargs[2] is not ns:
+                what = []
+                if len(cargs) >= 3:
+                    what = ['state' if cargs[0] is state else 'next_state' if cargs[0] is ns else 'other',
+                            'action' if cargs[1] is action else 'other',
+                            'next_state' if cargs[2] is ns else 'state' if cargs[2] is state else 'other']
+                ctx.violation('gridworld', f'gridworld.{name}_arguments',
+                              f'{label}: {name} function received {what} instead of (state, action, next_state)', 'env_step', payload_fn())
+                break
         if getattr(spy, 'seen', None) is not None and spy.seen != before:
             ctx.violation('gridworld', f'gridworld.{name}_sees_modified_state',
                           f'{label}: when the {name} function was evaluated its `state` argument no longer had the value it had before '
